@@ -22,6 +22,12 @@ def plan(tier):
     p.append((S.T13(vm_strs={"vm1": "", "vm2": "only Win10\n", "vm3": "only Ubuntu\n"}).variant("/vm1=any"), 0 if q else 1, 1))
     p.append((S.T2("cluster1.net6 cluster1.net7 cluster2.net6").variant("/clusters"), 1 if q else 2, 2))
     p.append((S.T2("net1 net3 net5", vm_strs={"vm1": "", "vm2": "only Win10\n", "vm3": "only Ubuntu\n"}).variant("/restricted,vm1=any"), 0 if q else 1, 2))
+    # pool scopes: narrowed reuse (each lxc worker / each cluster on its own) with and without setup left in the shared pool
+    for scope in ("own shared", "own", "own swarm shared", "own cluster shared"):
+        p.append((S.T2(params={"pool_scope": scope}).variant(f"/scope={scope.replace(' ', '+')}"), 1 if q else 2, 1))
+        p.append((S.T2(params={"pool_scope": scope}, shared=S.VM1_CHAIN[:1]).variant(f"/scope={scope.replace(' ', '+')},shared=install"), 2 if q else 3, 1))
+    p.append((S.T2("cluster1.net6 cluster1.net7 cluster2.net6", params={"pool_scope": "own swarm shared"}).variant("/clusters,scope=own+swarm+shared"), 1 if q else 2, 1))
+    p.append((S.T2("cluster1.net6 cluster2.net6", params={"pool_scope": "own shared"}, shared=S.VM1_CHAIN[:1]).variant("/clusters,scope=own+shared,shared=install"), 1 if q else 2, 1))
     # histories: every subset of the producible vm1 states in the shared pool (T2) ...
     for r in range(1, 4):
         for sub in itertools.combinations(S.VM1_CHAIN, r):
